@@ -19,7 +19,7 @@ from .. import common, dating, gen, rescale_corr as rc
 from ..common import Result, Violation, f2h
 
 META = dict(
-    level='Lean theorems over the model of rescale_tree_sequence (iteration of mutational_timescale + piecewise_scale_point_estimate, then mutation midpoints), for every edge list, likelihood table, sample mask, interval and iteration count, whenever no assertion of the code fires (exact arithmetic): sample times unchanged; non-sample times transformed by a non-decreasing map (order of any two free nodes with non-negative times preserved); each step strictly increasing up to the oldest node time, so strict parent>child order survives; mutation on an edge gets the midpoint of the edge (between child and parent), mutation above a root its node time. Model tied to the real function bit-for-bit (node and mutation times, and which inputs assert). Outside: tskit table validity/sort/compute_mutation_parents by contract; "same topology" is tied by the oracle only (the code does not touch edges); that no assertion fires is C25.timescale_breaks_strict under its hypothesis (two node times differ) and is checked on every input.',
+    level='Lean theorems over the model of rescale_tree_sequence (iteration of mutational_timescale + piecewise_scale_point_estimate, then mutation midpoints), for every edge list, likelihood table, sample mask, interval and iteration count, whenever no assertion of the code fires (exact arithmetic): sample times unchanged; non-sample times transformed by a non-decreasing map (order of any two free nodes with non-negative times preserved); each step strictly increasing up to the oldest node time, so strict parent>child order survives; mutation on an edge gets the midpoint of the edge (between child and parent), mutation above a root its node time. Model tied to the real function bit-for-bit (node and mutation times, and which inputs assert). Known finding F16: no constraint step after rescaling, so a branch squeezed below one ulp can collapse in doubles (LibraryError), reproduced by the Float model. Outside: tskit table validity/sort/compute_mutation_parents by contract; "same topology" is tied by the oracle only (the code does not touch edges); that no assertion fires is C25.timescale_breaks_strict under its hypothesis (two node times differ) and is checked on every input.',
     note='Lean kernel + {propext, Classical.choice, Quot.sound}; sampled bit-exact correspondence at Float; count_mutations (C24) and tskit by contract',
     technique='loop invariant by induction over iterations on top of the C25 interpolant lemmas; bit-exact model/implementation correspondence on the whole function',
     ref='§3 C37',
@@ -149,7 +149,7 @@ def run(ctx):
     import tskit
     res = Result()
     import tsdate  # noqa: F401
-    stats = dict(families={}, outcomes={}, options={}, empty_interval_cases=0, ancient_rejected=0,
+    stats = dict(families={}, outcomes={}, options={}, empty_interval_cases=0, rounding_collapse=0, ancient_rejected=0,
                  hyp_fixed_len=0, mutations_checked=0, root_mutations=0)
     rng = ctx.rng(1)
     cases = []
@@ -184,9 +184,19 @@ def run(ctx):
                     "standalone-rescale-asserts",
                     f"rescale_tree_sequence(num_intervals={kw['num_intervals']}, num_iterations={kw['num_iterations']}) raised "
                     f"AssertionError: {r['msg']} ({ts.num_mutations} mutations on {ts.num_edges} edges)", replay))
+            elif r["exc"] == "LibraryError" and "TIME" in r["msg"].upper():
+                # the rescaled times are not valid for the edge table.  In exact arithmetic every step is strictly increasing
+                # (theorem rescale_step_strict); in doubles a branch squeezed by a nearly mutation-free interval can end up
+                # shorter than one ulp and the next step maps parent and child to the same float.  The Float model replays it.
+                collapsed = isinstance(m, dict) and bool(np.any(
+                    np.asarray(m["t"])[c["inp"]["parent"]] <= np.asarray(m["t"])[c["inp"]["child"]]))
+                stats["rounding_collapse"] += int(collapsed)
+                kind = "standalone-rescale-rounding-collapses-branch" if collapsed else "standalone-rescale-invalid-times"
+                res.violations.append(Violation(
+                    kind, f"rescale_tree_sequence({kw}) raised {r['exc']}: {r['msg']} ({ts.num_nodes} nodes, max time "
+                    f"{float(ts.nodes_time.max())!r})", replay))
             else:
-                kind = "standalone-rescale-invalid-times" if r["exc"] == "LibraryError" else "standalone-rescale-raises"
-                res.violations.append(Violation(kind, f"rescale_tree_sequence raised {r['exc']}: {r['msg']}", replay))
+                res.violations.append(Violation("standalone-rescale-raises", f"rescale_tree_sequence raised {r['exc']}: {r['msg']}", replay))
             continue
         stats["outcomes"]["returned"] = stats["outcomes"].get("returned", 0) + 1
         out = r["out"]
